@@ -195,12 +195,83 @@ pub fn run_elim(case: &ElimCase, obs: &mut Obs) -> Result<(), Fail> {
             format!("eliminate(splice(G)) != eliminate(G):\n{}--- spliced program\n{t1}", diff(&r1, &m1)),
         ));
     }
+    // (b) the same kind of splice made through the public graph API, with integer indices on
+    // the spliced node's own side of both edges
+    if let Flat::Ok { graph: mut g2, .. } = pipeline::build_flat(&t0, None) {
+        let mut n_api = 0;
+        for (j, &(ec, is_tee, count)) in case.splices.iter().enumerate() {
+            let ids: Vec<_> = g2.edge_ids().collect();
+            if ids.is_empty() {
+                break;
+            }
+            let ported: Vec<_> = ids
+                .iter()
+                .copied()
+                .filter(|&e| {
+                    let (a, b) = g2.edge_ports(e);
+                    a.is_specified() || b.is_specified()
+                })
+                .collect();
+            let eid = if (count / 16) % 2 == 0 && !ported.is_empty() { ported[ec as usize % ported.len()] } else { ids[ec as usize % ids.len()] };
+            let (src, dst) = g2.edge(eid);
+            let (sp, dp) = {
+                let (a, b) = g2.edge_ports(eid);
+                (a.clone(), b.clone())
+            };
+            let op: dfir_lang::parse::Operator = syn::parse_str(if is_tee { "tee()" } else { "union()" }).unwrap();
+            let lp = g2.node_loop(src);
+            let sn = g2.insert_node(GraphNode::Operator(op), Some(syn::Ident::new(&format!("a{j}"), proc_macro2::Span::call_site())), lp);
+            let own = |k: u8| -> PortIndexValue {
+                if (count / 2) % 4 == 0 {
+                    PortIndexValue::Elided(None)
+                } else {
+                    PortIndexValue::Int(IndexInt { value: ((count / 8 + k) % 2) as isize, span: proc_macro2::Span::call_site() })
+                }
+            };
+            g2.remove_edge(eid);
+            g2.insert_edge(src, sp, sn, own(0));
+            g2.insert_edge(sn, own(1), dst, dp);
+            n_api += 1;
+        }
+        let mut d = Diagnostics::new();
+        g2.insert_node_op_insts_all(&mut d);
+        eliminate_extra_unions_tees(&mut g2);
+        let s2 = snap(&g2);
+        if !s2.adjacency_consistent() {
+            return Err(Fail::new("eliminate:adjacency-lists-corrupted", t0.clone()));
+        }
+        let r2 = canon(&s2).map_err(|e| Fail::new("harness:canon", e))?;
+        if r2 != m0 {
+            return Err(Fail::new(
+                if diff(&r2, &m0).contains("edge") { "eliminate:api-spliced-graph-wiring-differs" } else { "eliminate:api-spliced-graph-nodes-differ" },
+                format!("eliminate(API-splice(G)) != eliminate(G) ({n_api} unary ops inserted with integer own-side indices, splices {:?}):\n{}--- program\n{t0}", case.splices, diff(&r2, &m0)),
+            ));
+        }
+        obs.class("eliminate:api-splice-checked");
+    }
     // non-trivial: a splice sits on a port-indexed edge
-    let ported = p1.edges.iter().any(|e| (p1.nodes[e.src].spliced || p1.nodes[e.dst].spliced) && (e.sport.is_some() || e.dport.is_some()));
+    let nb_ported = p1.edges.iter().any(|e| (p1.nodes[e.dst].spliced && !p1.nodes[e.src].spliced && e.sport.is_some()) || (p1.nodes[e.src].spliced && !p1.nodes[e.dst].spliced && e.dport.is_some()));
+    let own_indexed = p1.edges.iter().any(|e| (p1.nodes[e.dst].spliced && e.dport.is_some()) || (p1.nodes[e.src].spliced && e.sport.is_some()));
+    // the critical shape: the spliced node carries its own index on one side while the far end
+    // of its other edge carries an explicit port (`src -> [0]u; u -> [1]join`, `unzip[1] -> t; t[0] -> ..`)
+    let critical = (0..p1.nodes.len()).filter(|&i| p1.nodes[i].spliced).any(|i| {
+        let own_in = p1.edges.iter().any(|e| e.dst == i && e.dport.is_some());
+        let own_out = p1.edges.iter().any(|e| e.src == i && e.sport.is_some());
+        let far_dst = p1.edges.iter().any(|e| e.src == i && e.dport.is_some());
+        let far_src = p1.edges.iter().any(|e| e.dst == i && e.sport.is_some());
+        (own_in && far_dst) || (own_out && far_src)
+    });
+    let ported = nb_ported;
     let n_spliced = p1.nodes.iter().filter(|n| n.spliced).count();
     obs.nontrivial(ported && n_spliced > 0);
     if ported {
         obs.class("eliminate:splice-next-to-port");
+    }
+    if own_indexed {
+        obs.class("eliminate:own-index-on-spliced-node");
+    }
+    if critical {
+        obs.class("eliminate:own-index-vs-explicit-far-port");
     }
     if c0 != m0 {
         obs.class("eliminate:natural-unary-op");
